@@ -13,7 +13,6 @@
 EXTENDS SignerAuthProps
 
 CONSTANTS MaxSigs,      \* signatures in a file (<= 4)
-          Spaced,       \* BOOLEAN: include the hash written as blank-separated hex bytes
           Tools         \* subset of {"none", "key", "eth", "manual_ok", "manual_bad"}
 
 HL == 2
@@ -34,14 +33,17 @@ BadHashes  == { Txt("short", <<97, 49>>),                  \* one byte less
                 Txt("prefixed", <<48, 120, 97, 49, 98, 50>>),  \* 0xa1b2
                 Txt("prefixed_samelen", <<48, 120, 98, 50>>),  \* 0xb2
                 Txt("empty", <<>>),
+                Txt("spaced", <<97, 49, 32, 98, 50>>),       \* "a1 b2": blank-separated bytes
                 [cls |-> "other", kind |-> "other", s |-> <<>>] }
-                \cup (IF Spaced THEN {Txt("spaced", <<97, 49, 32, 98, 50>>)} ELSE {})   \* "a1 b2"
 
 It(cls, form, val, s) == [cls |-> cls, form |-> form, val |-> val, s |-> s]
 GoodIters == { It("int_0", "int", 0, <<>>), It("int_1", "int", 1, <<>>),
                It("int_mid", "int", 258, <<>>), It("int_max", "int", 65535, <<>>),
                It("dec_0", "str", 0, <<48>>), It("dec_mid", "str", 0, <<50, 53, 56>>),
                It("dec_max", "str", 0, <<54, 53, 53, 51, 53>>),
+               It("dec_lead0", "str", 0, <<48, 48, 50, 53, 56>>),               \* 00258
+               It("dec_lead0_max", "str", 0, <<48, 54, 53, 53, 51, 53>>),       \* 065535
+               It("hex_pad", "str", 0, <<48, 120, 48, 49, 48, 50>>),            \* 0x0102
                It("hex_mid", "str", 0, <<48, 120, 49, 48, 50>>),              \* 0x102
                It("hex_max", "str", 0, <<48, 120, 102, 102, 102, 102>>),      \* 0xffff
                It("hex_max_upper", "str", 0, <<48, 120, 70, 70, 70, 70>>) }   \* 0xFFFF
@@ -49,6 +51,9 @@ BadIters  == { It("int_neg", "int", -1, <<>>), It("int_over", "int", 65536, <<>>
                It("dec_neg", "str", 0, <<45, 49>>),
                It("dec_over", "str", 0, <<54, 53, 53, 51, 54>>),
                It("hex_over", "str", 0, <<48, 120, 49, 48, 48, 48, 48>>),      \* 0x10000
+               It("bin", "str", 0, <<48, 98, 49, 48, 49>>),                     \* 0b101
+               It("oct", "str", 0, <<48, 111, 49, 55>>),                        \* 0o17
+               It("hex_upper_prefix", "str", 0, <<48, 88, 49, 70>>),            \* 0X1F
                It("float", "float", 1, <<>>), It("bool", "bool", 1, <<>>),
                It("none", "none", 0, <<>>),
                It("junk_alpha", "str", 0, <<97, 98, 99>>),                      \* abc
@@ -82,7 +87,8 @@ PyFromHex(s) ==
          THEN LET r == PyFromHex(SubSeq(s, 3, Len(s))) IN
               IF r = Fail THEN Fail ELSE <<16 * HexVal(s[1]) + HexVal(s[2])>> \o r
          ELSE Fail
-SysHashOK(h) == h.kind = "str" /\ PyFromHex(h.s) # Fail /\ Len(PyFromHex(h.s)) = HL
+\* is_hex_string_of_length(hash, 32) and len(hash) == 64
+SysHashOK(h) == h.kind = "str" /\ PyFromHex(h.s) # Fail /\ Len(PyFromHex(h.s)) = HL /\ Len(h.s) = 2 * HL
 \* hex_or_decimal_string_to_int on the texts above (sign, digits); -2 = ValueError
 PyInt(s, hex) ==
     LET neg == s # <<>> /\ s[1] = 45
